@@ -140,6 +140,9 @@ with cand_field (fp : fplan) (p : rpath) {struct fp} : list err * list site :=
       end
   end.
 
+(** an error lands at a site that lists it *)
+Definition lands (e : err) (x : site) : Prop := In e (snd x).
+
 (** all sites of a request; the root site has the empty path *)
 Definition sites (root : selset) : list site :=
   let c := cand_inner (VObj root) [] in ([], fst c) :: snd c.
